@@ -12,6 +12,8 @@ import math
 
 import numpy as np
 
+np.seterr(over='ignore', invalid='ignore', divide='ignore')
+
 from ..gen.grammars import dom_size
 
 
